@@ -352,7 +352,8 @@ def judge(chk, fam, si, name, ops, line, stats, plateau, table=None):
             chk.violation(named(name, f'signal:{rc}:{fam}'), f'{name}: "{ops}" -> process died rc={rc} {txt[-300:]}', rep)
         return
     if line.startswith('TIMEOUT'):
-        stats['timeouts'].append((fam, si, name, ops, table))
+        if fam != 'booklat':                          # (the lattice records its watchdog expiries batch by batch)
+            stats['timeouts'].append((fam, si, name, ops, table))
         return
     d = dict(tok.split('=', 1) for tok in line.split(' ') if '=' in tok)
     if d.get('X') == '1':
@@ -384,38 +385,54 @@ def peak_of(line):
 def run_lattice(chk, tier, exe, exe_plain, stats, plateau, fams):
     """codebook size lattice (pylib/c02_lattice.py): every lattice point x lookup type x length transmission x role, on the ASan build (all
     oracles) and on the uninstrumented build (8 MiB stack, heap budget, watchdog).  Tables of at most 64 MB each."""
-    lat = list(c02_lattice.lattice_sets(tier, packets_for))
     L = c02_lattice
-    groups, cur, size = [], [], 0
-    for i, (name, pk, info) in enumerate(lat):
-        n = sum(len(p) for p in pk)
-        if cur and size + n > (64 << 20):
-            groups.append(cur)
-            cur, size = [], 0
-        cur.append(i)
-        size += n
-    if cur:
-        groups.append(cur)
-    c = {'sets': len(lat), 'tables': len(groups), 'rejected': 0, 'accepted_init_ok': 0, 'accepted_cheap': 0, 'over_budget_sets': 0, 'over_budget_accepted': 0,
+
+    def groups():
+        cur, size = [], 0
+        for item in L.lattice_sets(tier, packets_for):            # streamed: the thorough lattice is > 1 GB of headers
+            n = sum(len(p) for p in item[1])
+            if cur and size + n > (64 << 20):
+                yield cur
+                cur, size = [], 0
+            cur.append(item)
+            size += n
+        if cur:
+            yield cur
+    c = {'sets': 0, 'tables': 0, 'rejected': 0, 'accepted_init_ok': 0, 'accepted_cheap': 0, 'over_budget_sets': 0, 'over_budget_accepted': 0,
          'seed_circumstance_presented': 0, 'max_peak': 0, 'plain_runs': 0, 'cells_both_outcomes': 0}
     cells = {}
-    for gi, g in enumerate(groups):
+    for gi, g in enumerate(groups()):
         tab = os.path.join(vlib.zoo_dir(), 'c02_lat_%s_%d.bin' % (tier, gi))
-        write_table(tab, [(lat[i][0], lat[i][1]) for i in g])
-        lines = [f'{k} {L.OPS}' for k in range(len(g))]
-        res = vlib.run_cases(exe, lines, ['--table', tab, '--timeout', '10'] + CAP, tag='c02l')
-        resp = vlib.run_cases(exe_plain, lines, ['--table', tab, '--timeout', '10'] + CAP, tag='c02lp')
-        for k, i in enumerate(g):
-            name, _, info = lat[i]
+        write_table(tab, [(x[0], x[1]) for x in g])
+        g = [(x[0], None, x[2]) for x in g]
+        c['sets'] += len(g)
+        c['tables'] += 1
+        # batches of 96: a change that makes a whole class hang costs 10 s of CPU per case, so the lattice stops after 60 watchdog expiries
+        # (each of them is judged below; the rest of the lattice is then reported as not run: exhaustive=false)
+        res, resp = [], []
+        for b0 in range(0, len(g), 96):
+            lines = [f'{k} {L.OPS}' for k in range(b0, min(b0 + 96, len(g)))]
+            for rr, ex_, fl_ in ((res, exe, ''), (resp, exe_plain, ':plain')):
+                if len(stats['timeouts']) > 60:
+                    c['cut'] = True
+                    break
+                rr += vlib.run_cases(ex_, lines, ['--table', tab, '--timeout', '10'] + CAP, tag='c02l')
+                stats['timeouts'] += [('booklat' + fl_, k, g[k][0], L.OPS, tab) for k in range(b0, len(rr)) if (rr[k] or '').startswith('TIMEOUT')]
+            if c.get('cut'):
+                break
+        resp += ['NOTRUN'] * (len(res) - len(resp))
+        for k, (name, _, info) in enumerate(g[:len(res)]):
             fams['booklat'] = fams.get('booklat', 0) + 1
             chk.cov['evaluations'] += 2
             c['plain_runs'] += 1
             judge(chk, 'booklat', k, name, L.OPS, res[k], stats, plateau, tab)
             r = resp[k]
-            if r is None or r.startswith('DIED'):
+            if r == 'NOTRUN':
+                c['plain_runs'] -= 1
+            elif r is None or r.startswith('DIED'):
                 chk.violation('plain:died:booklat', f'{name}: "{L.OPS}" on the uninstrumented build (8 MiB stack): {str(r)[:300]}', {'set': name, 'ops': L.OPS, 'flavour': 'plain', 'tier': tier})
             elif r.startswith('TIMEOUT'):
-                stats['timeouts'].append(('booklat:plain', k, name, L.OPS, tab))
+                pass                                      # recorded with its batch
             elif peak_of(r) > HEAP_BUDGET:
                 chk.violation('heap_budget:booklat', f'{name}: "{L.OPS}" peak heap {peak_of(r)} bytes (uninstrumented build)', {'set': name, 'ops': L.OPS, 'flavour': 'plain', 'tier': tier})
             # coverage facts from the instrumented run
@@ -435,10 +452,12 @@ def run_lattice(chk, tier, exe, exe_plain, stats, plateau, fams):
                 c['accepted_cheap'] += peak_of(res[k]) < (1 << 20)
                 cell.add('acc')
             c['max_peak'] = max(c['max_peak'], peak_of(res[k]))
+        if c.get('cut'):
+            break
     c['cells'] = len(cells)
     c['cells_both_outcomes'] = sum(1 for v in cells.values() if v == {'rej', 'acc'})
     c['cells_never_accepted'] = sorted('l%d/%s/%s' % k for k, v in cells.items() if 'acc' not in v)
-    c['bound'] = 'dim x entries = %s x %s; lookup 0/1/2; %s; roles %s; tier bounds in c02_lattice.lattice_sets' % (L.DIMS, L.ENTRIES, '/'.join(L.KINDS), '/'.join(L.PLACES))
+    c['bound'] = 'dim x entries = %s x %s; lookup 0/1/2; %s; roles %s; tier bounds in c02_lattice.lattice_sets' % ((L.DIMS, L.ENTRIES, '/'.join(L.KINDS), '/'.join(L.PLACES)) if tier == 'quick' else (L.DIMS_T, L.ENTRIES_T, '/'.join(L.KINDS), '/'.join(L.PLACES)))
     chk.cov['booklat'] = c
     return c
 
@@ -464,6 +483,7 @@ def run(tier):
     cut = False
     done = 0
     lat = run_lattice(chk, tier, exe, exe_plain, stats, plateau, fams)
+    cut = bool(lat.get('cut'))
     CH = 40000
     for i in range(0, len(cases), CH):
         if time.time() > deadline or len(stats['timeouts']) > 150:
@@ -562,4 +582,6 @@ def replay(path):
     exe = vlib.harness('plain' if rp.get('flavour') == 'plain' else 'asan', 'c02_dec', extra=WRAPX)
     out = vlib.run_cases(exe, [f"{names.index(rp['set'])} {rp['ops']}"], ['--table', table, '--timeout', '100'] + CAP, jobs=1)
     print(out[0])
+    if os.path.basename(table) == 'c02_lat_replay.bin':
+        os.unlink(table)
     return 0 if (out[0] and not out[0].startswith(('DIED', 'TIMEOUT')) and ' X=0' in out[0] and peak_of(out[0]) <= HEAP_BUDGET) else 1
